@@ -171,6 +171,18 @@ fn handle(req: &Value) -> Value {
                 .unwrap_or(if want_trace { 200_000 } else { 50_000 }) as usize;
             let input = input_bytes(req);
             let mut o = run_transform(&input, &cfg, want_trace, cap);
+            // optionally the same request through the string API (front-ends must agree)
+            if req.get("str_api").and_then(|t| t.as_bool()).unwrap_or(false) {
+                if let Ok(text) = String::from_utf8(input.clone()) {
+                    let cfg2 = cfg.clone();
+                    let r = std::panic::catch_unwind(std::panic::AssertUnwindSafe(move || svgdx::transform_str(text, &cfg2)));
+                    o["str_api"] = match r {
+                        Ok(Ok(s)) => json!({"status": "ok", "out": s}),
+                        Ok(Err(e)) => json!({"status": "err", "err": e.to_string()}),
+                        Err(e) => json!({"status": "panic", "err": panic_message(e)}),
+                    };
+                }
+            }
             // optional feedback chain: re-transform the output under further configs
             if let (Some(Value::Array(again)), Some(out)) = (
                 req.get("again"),
